@@ -113,7 +113,7 @@ TOCTOU_RULE = ('one run = one copy_and_verify scenario (18 variants: string with
                'the whole region inside the verifier and after return; the quick tier enumerates (variant x placement x len in {1,5,16}) x every access index x every mutation; '
                'non-trivial = at least one mutation fired inside the call; distinct = event-log hashes (include the trap trace R/W@offset)')
 TOCTOU_WORLD = dict(world='toctou', variants=['plain', 'asan'],
-                    quick=dict(count=12000, time_limit=90, enumerate=True, variant_share={'plain': 0.7, 'asan': 0.3}, enum_share={'plain': 1.0, 'asan': 0.25}),
+                    quick=dict(count=16000, time_limit=90, enumerate=True, variant_share={'plain': 0.6, 'asan': 0.4}, enum_share={'plain': 1.0, 'asan': 1.0}),
                     thorough=dict(count=1500000, time_limit=900, enumerate=True, variant_share={'plain': 0.7, 'asan': 0.3}))
 PROPS.update({
     'C09': dict(level='fault_enumeration', worlds=[TOCTOU_WORLD], rule=TOCTOU_RULE, components=dict(
